@@ -83,6 +83,13 @@ class Scheduler:
         kind = p['kind']
         if kind == 'sequential':
             return alive[0], 1 << 60
+        if kind == 'roundrobin':
+            # strict alternation with tiny slices: clients that execute the same code path stay within a few
+            # lines of each other ("both inside the same function at the same time")
+            self._rr = (getattr(self, '_rr', -1) + 1) % self.n
+            while self._rr not in self.alive:
+                self._rr = (self._rr + 1) % self.n
+            return self._rr, max(1, p.get('mean', 1))
         if kind == 'starve':
             victim = p.get('victim', 0)
             others = [t for t in alive if t != victim]
